@@ -335,9 +335,22 @@ class World:
                 if decs[0] in fns:
                     raise Untranslatable(f"{name}: two {decs[0]} hooks")
                 a = st.args
-                if [x.arg for x in a.args] != ["self", "data"] or a.vararg or a.kwonlyargs or a.kwarg is None or a.defaults:
+                if len(a.args) != 2 or a.args[0].arg != "self" or a.vararg or a.kwonlyargs or a.kwarg is None or a.defaults:
                     raise Untranslatable(f"{name}.{st.name}: signature")
-                fns[decs[0]] = strip_doc(st.body)
+                body = strip_doc(st.body)
+                pname = a.args[1].arg
+                if pname != "data":   # the name of the parameter is immaterial: the templates below are written with `data`
+                    if any(isinstance(x, ast.Name) and x.id == "data" for b in body for x in ast.walk(b)):
+                        raise Untranslatable(f"{name}.{st.name}: both `{pname}` and `data` occur")
+
+                    class Rename(ast.NodeTransformer):
+                        def visit_Name(self, node):  # noqa: N802
+                            return ast.copy_location(ast.Name(id="data", ctx=node.ctx), node) if node.id == pname else node
+
+                    import copy
+
+                    body = [Rename().visit(copy.deepcopy(b)) for b in body]
+                fns[decs[0]] = body
         kinds = set(fns)
 
         def same(body, src):
